@@ -58,7 +58,11 @@ Fixpoint flatten_vecs (e : deepex D) (prio_offset : Z) : res (list (fnode D) * l
 (* flat.rs:879 from_deepex *)
 Definition from_deepex (e : deepex D) : res (flatex D) :=
   do ' (nodes, ops) <- flatten_vecs e 0;
-  Ok {| fnodes := nodes; fops := ops; fprios := prioritized_indices_flat fixed_bump ops nodes; fvars := dvars e |}.
+  match unparse C tb e with
+  | None => Panic 144
+  | Some text =>
+      Ok {| fnodes := nodes; fops := ops; fprios := prioritized_indices_flat fixed_bump ops nodes; fvars := dvars e; ftext := text |}
+  end.
 
 (* flat.rs:171 convert_node *)
 Definition convert_node (names : list str) (n : fnode D) : res (dnode D) :=
